@@ -68,10 +68,9 @@ theorem progress_of_inv {cfg : Cfg} (hw1 : 1 ≤ cfg.nWorkers) (hw2 : 1 ≤ cfg.
   | nowait =>
     refine ⟨.p, ?_⟩
     show (stepP s).isSome
-    unfold stepP; simp only [hp]
-    split
-    · rfl
-    · split <;> rfl
+    cases hq : s.resQ with
+    | cons i r => rw [stepP_nowait_cons hp hq]; split <;> rfl
+    | nil => rw [stepP_nowait_nil hp hq]; split <;> rfl
   | stopPut i =>
     simp only [hp] at hph
     by_cases hf : s.workQ.length ≥ s.cfg.workCap
